@@ -277,6 +277,16 @@ def product(alpha, expr, schema, model, res, case):
             b = a.match_fragment(frag, mid) if a is not None else None
             if b is not mf:
                 res.violate("c06.match_fragment.range", {**case, "path": list(path)}, "split match differs", size=size)
+            # ... and, on the very same fragment object that was just walked from its start, the walk that STARTS
+            # at child s (the start state applied to the tail): alive exactly when the reference accepts the tail
+            for st in range(1, len(path) + 1):
+                got_t = m0.match_fragment(frag, st)
+                want_t = cexpr.run(r0, list(path[st:]))
+                res.transitions += 1
+                if (got_t is None) != (want_t == cexpr.EMPTY):
+                    res.violate("c06.match_fragment.offset", {**case, "path": list(path), "start": st},
+                                "None" if got_t is None else "alive", "dead" if want_t == cexpr.EMPTY else "alive", size=size)
+                    break
     # dead sequences: every one-symbol extension that the reference kills was checked above ('alive' clause)
     if npairs >= 2:
         res.nontrivial += 1
